@@ -44,3 +44,74 @@ def udh_concat(ref, total, seq, wide=False):
     if wide:
         return bytes([6, 0x08, 4, (ref >> 8) & 0xFF, ref & 0xFF, total, seq])
     return bytes([5, 0x00, 3, ref & 0xFF, total, seq])
+
+
+# --- SMPP 3.4 section 5.3.2: optional parameter kinds (hand-transcribed) -----------------------
+TLV_KINDS = {
+    0x0005: ('int', 1), 0x0006: ('int', 1), 0x0007: ('int', 1), 0x0008: ('int', 2), 0x000D: ('int', 1),
+    0x000E: ('int', 1), 0x000F: ('int', 1), 0x0010: ('int', 1), 0x0017: ('int', 4), 0x0019: ('int', 1),
+    0x001D: ('cstr', 0), 0x001E: ('cstr', 0), 0x0030: ('int', 1), 0x0201: ('int', 1), 0x0202: ('octets', 0),
+    0x0203: ('octets', 0), 0x0204: ('int', 2), 0x0205: ('int', 1), 0x020A: ('int', 2), 0x020B: ('int', 2),
+    0x020C: ('int', 2), 0x020D: ('int', 1), 0x020E: ('int', 1), 0x020F: ('int', 1), 0x0210: ('int', 1),
+    0x0302: ('int', 1), 0x0303: ('octets', 0), 0x0304: ('int', 1), 0x0381: ('octets', 0), 0x0420: ('int', 1),
+    0x0421: ('int', 1), 0x0422: ('int', 1), 0x0423: ('octets', 0), 0x0424: ('octets', 0), 0x0425: ('int', 1),
+    0x0426: ('int', 1), 0x0427: ('int', 1), 0x0501: ('octets', 0), 0x1201: ('int', 1), 0x1203: ('int', 2),
+    0x1204: ('int', 1), 0x130C: ('flag', 0), 0x1380: ('int', 1), 0x1383: ('octets', 0),
+}
+
+
+def tlv_kind(tag):
+    return TLV_KINDS.get(tag, ('octets', 0))
+
+
+def tlv_value(tag, value):
+    """wire value of an optional parameter from its logical value (int / str / True)"""
+    kind, width = tlv_kind(tag)
+    if kind == 'int':
+        return int(value).to_bytes(width, 'big')
+    if kind == 'cstr':
+        return value.encode('ascii') + b'\x00'
+    if kind == 'flag':
+        return b''
+    return value.encode('ascii')
+
+
+def time_str(t):
+    """SMPP 3.4 section 7.1.1 from a datetime (naive = UTC) / timedelta / None"""
+    from datetime import datetime
+    if t is None:
+        return ''
+    if isinstance(t, datetime):
+        off = t.utcoffset()
+        secs = 0 if off is None else off.days * 86400 + off.seconds
+        return '%02d%02d%02d%02d%02d%02d%d%02d%s' % (t.year % 100, t.month, t.day, t.hour, t.minute, t.second,
+                                                      t.microsecond // 100000, abs(secs) // 900, '-' if secs < 0 else '+')
+    days, secs = t.days, t.seconds
+    return '%02d%02d%02d%02d%02d%02d000R' % (days // 365, days % 365 // 30, days % 365 % 30, secs // 3600,
+                                             secs % 3600 // 60, secs % 60)
+
+
+COMMAND_IDS = {'SubmitSm': 0x04, 'DeliverSm': 0x05, 'SubmitSmResp': 0x80000004, 'DeliverSmResp': 0x80000005,
+               'GenericNack': 0x80000000, 'BindReceiver': 0x01, 'BindTransmitter': 0x02, 'BindTransceiver': 0x09,
+               'BindReceiverResp': 0x80000001, 'BindTransmitterResp': 0x80000002, 'BindTransceiverResp': 0x80000009,
+               'EnquireLink': 0x15, 'EnquireLinkResp': 0x80000015, 'Unbind': 0x06, 'UnbindResp': 0x80000006}
+DATA_CODING = {'gsm0338': 0, 'gsm0338_packed': 0, 'ascii': 1, 'latin_1': 3, 'ucs2': 8}
+
+
+def text_bytes(text, alphabet):
+    """octets of a text under a data coding, by codecs that are not the library's"""
+    from spec import gsm as gspec
+    if alphabet == 'gsm0338':
+        return gspec.encode(text)
+    if alphabet == 'gsm0338_packed':
+        septets = gspec.encode(text)
+        if septets is None:
+            return None
+        v = 0
+        for i, s in enumerate(septets):
+            v |= s << (7 * i)
+        return v.to_bytes((7 * len(septets) + 7) // 8, 'little')
+    try:
+        return text.encode({'ucs2': 'utf-16-be', 'ascii': 'ascii', 'latin_1': 'latin-1'}[alphabet])
+    except UnicodeEncodeError:
+        return None
